@@ -58,6 +58,9 @@ func (e *ColEnum) parse(t ColumnType) error {
 	if e.strToRaw == nil {
 		e.strToRaw = map[string]int{}
 	}
+	// Dropping values of previous definition, if any.
+	clear(e.rawToStr)
+	clear(e.strToRaw)
 
 	elements := t.Elem().String()
 	for _, elem := range strings.Split(elements, ",") {
